@@ -267,6 +267,11 @@ def make_session(M, ch, rng, sysd, mats_shared, sid, st, reuse=None, pre_use=Fal
     if ic == 1:
         s.d0 = rng.standard_normal(n) * 1e-2
         s.v0 = rng.standard_normal(n) * 1e-1
+        z = ch.weighted([6, 1, 1], "ic_exact_zeros")  # given, but exactly zero: d0 / v0
+        if z == 1:
+            s.d0[:] = 0.0
+        elif z == 2:
+            s.v0[:] = 0.0
         only = ch.weighted([4, 2, 2], "only_d0")  # both / displacement only / velocity only
         if only == 1:
             s.v0 = None
